@@ -13,6 +13,7 @@ from .values import SInt, SBool, SSeq, SStr, SEnum, SObj, SFlags
 from .ops import raise_
 
 MAX_UNROLL = 600
+BOUND_HITS = set()
 
 
 class SRange(object):
@@ -79,11 +80,12 @@ def iteration_view(it):
         return 'symbolic', v[1], lambda k, v=v, it=it: (ops.wrap_int(V.iv(k) + it.start), v[2](k))
     if isinstance(it, SObj):
         try:
-            d, _ = I.class_lookup(it.cls, '__iter__')
+            d, owner = I.class_lookup(it.cls, '__iter__')
+        except AttributeError:
+            d = None
+        if d is not None and not owner.__module__.startswith(('collections', '_collections')):
             res = I.call(d, [it], {})
             return iteration_view(res)
-        except AttributeError:
-            pass
         # sequence protocol: __len__ / __getitem__
         n = I.obj_len(it)
         gi, _ = I.class_lookup(it.cls, '__getitem__')
@@ -119,6 +121,8 @@ def run_for(frame, st):
     it = frame.ev(st.iter)
     key = loop_key(frame, st)
     spec = F.LOOPS.get(key)
+    if spec is not None and hasattr(spec, 'applies') and not spec.applies(frame):
+        spec = None
     if spec is not None and getattr(spec, 'force', False):
         view = spec.view(frame, it)
     else:
@@ -147,10 +151,18 @@ def run_for(frame, st):
 def run_while(frame, st):
     key = loop_key(frame, st)
     spec = F.LOOPS.get(key)
+    if spec is not None and hasattr(spec, 'applies') and not spec.applies(frame):
+        spec = None
     if spec is None:
         count = 0
+        bound = F.BOUNDS.get(key)
         while ops.truth(frame.ev(st.test)):
             count += 1
+            if bound is not None and count > bound:
+                # bounded stand-in: executions with more iterations are not explored (reported, never counted as proved)
+                E.cur().notes.append(('bounded', key, bound))
+                BOUND_HITS.add((key, bound))
+                raise E.PathEnd()
             if count > MAX_UNROLL:
                 raise E.Unsupported('while loop %s:%d unrolled %d times without contract' % (key + (count,)))
             try:
@@ -448,8 +460,11 @@ class FunctionalLoop(object):
         P = E.cur()
         n = ctx.n
         if n is None:
-            raise E.Unsupported('functional loop contract on a while loop')
-        nn = V.simp(z3.If(n < 0, z3.IntVal(0), n))
+            # while loop: some number of completed iterations; the negated guard (checked by the caller) fixes it
+            nn = V.fresh_int('kexit')
+            P.assume(nn >= 0)
+        else:
+            nn = V.simp(z3.If(n < 0, z3.IntVal(0), n))
         self._assume(frame, ctx, nn)
         self.poison(frame, ctx)
 
@@ -458,7 +473,7 @@ class FunctionalLoop(object):
 
     def poison(self, frame, ctx):
         st = ctx.stmt
-        names = assigned_names(st.body) | assigned_names([st.target] if hasattr(st, 'target') else [])
+        names = assigned_names(st.body) | (assigned_names([st.target]) if hasattr(st, 'target') else set())
         keep = {p.split('.')[0] for p in self._state(frame, ctx, z3.IntVal(0))}
         for nme in names - keep:
             frame.env[nme] = Poison(nme)
